@@ -166,14 +166,19 @@ Fixpoint fail_all (rv : N) (l : list N) : list mout :=
 Definition msgq_step (fixed : bool) (q : msgq) (o : mop) : option (N * msgq * list mout) :=
   match o with
   | MAioPut a m ok =>
-      if negb ok then Some (0%N, q, []) else
+      (* nni_aio_start is reached only when the operation has to wait *)
+      let must_start := negb (match mq_putq q with [] => true | _ => false end) ||
+                        ((match mq_getq q with [] => true | _ => false end) && (mq_cap q <=? mq_len q)) in
+      if must_start && negb ok then Some (0%N, q, []) else
       let q1 := set_qs q (mq_putq q ++ [(a, m)]) (mq_getq q) in
       match run_putq (length (mq_putq q1)) q1 with
       | None => None
       | Some (q2, outs) => Some (0%N, run_notify q2, outs)
       end
   | MAioGet a ok =>
-      if negb ok then Some (0%N, q, []) else
+      let must_start := negb (match mq_getq q with [] => true | _ => false end) ||
+                        ((mq_len q =? 0) && (match mq_putq q with [] => true | _ => false end)) in
+      if must_start && negb ok then Some (0%N, q, []) else
       let q1 := set_qs q (mq_putq q) (mq_getq q ++ [a]) in
       match run_getq (length (mq_getq q1)) q1 with
       | None => None
@@ -212,16 +217,27 @@ Definition msgq_step (fixed : bool) (q : msgq) (o : mop) : option (N * msgq * li
       match drop_excess (if fixed then is_geb else is_gtb) (mq_len q) cap q with
       | None => None
       | Some (q1, outs) =>
-          if negb grow then
-            Some (0%N, mkMsgq cap (mq_len q1) (mq_get q1) (mq_put q1) (mq_closed q1) (mq_cells q1)
-                              (mq_putq q1) (mq_getq q1) (mq_sendable q1) (mq_recvable q1), outs)
-          else
-            let qn := mkMsgq cap 0 0 0 (mq_closed q1) (repeat 0%N alloc) (mq_putq q1) (mq_getq q1)
-                             (mq_sendable q1) (mq_recvable q1) in
-            match copy_ring (mq_len q1) (mq_cells q1) (mq_get q1) qn with
-            | None => None
-            | Some q2 => Some (0%N, q2, outs)
-            end
+          let resized :=
+            if negb grow then
+              Some (mkMsgq cap (mq_len q1) (mq_get q1) (mq_put q1) (mq_closed q1) (mq_cells q1)
+                           (mq_putq q1) (mq_getq q1) (mq_sendable q1) (mq_recvable q1))
+            else
+              let qn := mkMsgq cap 0 0 0 (mq_closed q1) (repeat 0%N alloc) (mq_putq q1) (mq_getq q1)
+                               (mq_sendable q1) (mq_recvable q1) in
+              copy_ring (mq_len q1) (mq_cells q1) (mq_get q1) qn in
+          match resized with
+          | None => None
+          | Some q2 =>
+              (* out: run the waiter queues and the pollables ("wake everyone up") *)
+              match run_putq (length (mq_putq q2)) q2 with
+              | None => None
+              | Some (q3, o3) =>
+                  match run_getq (length (mq_getq q3)) q3 with
+                  | None => None
+                  | Some (q4, o4) => Some (0%N, run_notify q4, outs ++ o3 ++ o4)
+                  end
+              end
+          end
       end
   | MNotify => Some (0%N, run_notify q, [])
   end.
